@@ -84,7 +84,7 @@ def run(ctx):
                       f"{m.qual} can return a {sorted(v.types & CONTROL_BC) if leak else ''} signal: a break/continue "
                       f"meant for this loop would end or restart an enclosing loop instead",
                       expr=f"{norm(ev.node)} #{nret}", site=f"{m.qual}: return #{nret} carries no break/continue")
-        if nret < (6 if qual[0] == "NodeFor" else 1):
+        if nret < (3 if qual[0] == "NodeFor" else 1):
             ctx.broken(m.qual, f"only {nret} returns analysed")
         # per host loop: break leaves, continue stays, return leaves
         for lp in [n for n in ast.walk(m.node) if isinstance(n, (ast.For, ast.While))]:
@@ -148,8 +148,13 @@ def run(ctx):
             isinstance(x, ast.Call) and norm(x.func) == "self.block.evaluate" for x in ast.walk(n.ast))
 
     def is_reeval(n):
-        return isinstance(n.ast, ast.Assign) and norm(n.ast.targets[0]) == "condition" \
+        return isinstance(n.ast, ast.Assign) and isinstance(n.ast.targets[0], ast.Name) \
             and norm(n.ast.value).startswith("self.expression.evaluate(")
+
+    cvs = {n.ast.targets[0].id for n in g.nodes if is_reeval(n)}
+    if len(cvs) != 1:
+        ctx.broken("NodeWhile.evaluate", f"condition variable not identified ({sorted(cvs)})")
+    cv = cvs.pop()
 
     def transfer(n, label, state):
         if is_body(n):
@@ -159,38 +164,75 @@ def run(ctx):
         return state
 
     st = g.dataflow(frozenset({"unset"}), transfer, lambda a, b: a | b)
-    tests = [n for n in g.nodes if n.kind == "test" and isinstance(n.origin, ast.While)]
-    if len(tests) != 1:
-        ctx.broken("NodeWhile.evaluate", "host while loop not found")
-    s_in = st.get(tests[0].id, frozenset())
-    ctx.check("C04.while", nw, tests[0].ast, s_in == frozenset({"fresh"}),
-              f"the loop test can be reached with a condition value that is {sorted(s_in - {'fresh'})}: after some "
-              f"path through the body (e.g. `continue`) the condition is not re-evaluated before the next iteration",
-              expr="condition fresh at loop test", site="NodeWhile.evaluate: condition re-evaluated on every path to the loop test")
-    ok = norm(tests[0].ast) == "condition.value"
+    # every host branch on the condition's payload (the loop test, in whatever form it is written)
+    tests = [n for n in g.nodes if n.kind == "test" and any(
+        isinstance(x, ast.Attribute) and x.attr == "value" and norm(x.value) == cv for x in ast.walk(n.ast))]
+    if not tests:
+        ctx.broken("NodeWhile.evaluate", "no host branch on the condition's payload found")
     from ..facts import must_facts
     facts = must_facts(g)
-    ok = ok and ("condition.isBoolean()", True) in facts.get(tests[0].id, frozenset())
-    ctx.check("C04.while", nw, tests[0].ast, ok,
-              "the loop test uses a condition that has not been checked with isBoolean() since it was evaluated",
-              expr="condition type-checked", site="NodeWhile.evaluate: condition type-checked before every test")
+    for t in tests:
+        s_in = st.get(t.id, frozenset())
+        ctx.check("C04.while", nw, t.ast, s_in == frozenset({"fresh"}),
+                  f"the loop test can be reached with a condition value that is {sorted(s_in - {'fresh'})}: after some "
+                  f"path through the body (e.g. `continue`) the condition is not re-evaluated before the next iteration",
+                  expr="condition fresh at loop test",
+                  site="NodeWhile.evaluate: condition re-evaluated on every path to the loop test")
+        ok = (f"{cv}.isBoolean()", True) in facts.get(t.id, frozenset())
+        ctx.check("C04.while", nw, t.ast, ok,
+                  "the loop test uses a condition that has not been checked with isBoolean() since it was evaluated",
+                  expr="condition type-checked", site="NodeWhile.evaluate: condition type-checked before every test")
+    for b in [n for n in g.nodes if is_body(n)]:
+        have = facts.get(b.id, frozenset())
+        ctx.check("C04.while", nw, b.ast, (f"{cv}.value", True) in have,
+                  "the loop body can run without the condition having just tested true",
+                  expr="body under a true condition", site="NodeWhile.evaluate: body runs only under a true condition")
 
     # ---------------------------------------------------------------- order
     nf = model.method(P, "NodeFor", "evaluate")
-    for n in ast.walk(nf.node):
-        if isinstance(n, ast.If) and norm(n.test) == "lst.isSet()":
-            ok = any(norm(s) == "values = lst.getSortedItems()" for s in n.body)
-            ctx.check("C04.order", nf, n.test, ok, "for over a set does not enumerate the sorted view",
-                      site="NodeFor.evaluate: set -> getSortedItems()")
-        if isinstance(n, ast.If) and norm(n.test) == "lst.isMap()":
-            ok = any(norm(s).startswith("values = [(k, lst.value[k]) for k in sorted(lst.value.keys())]")
-                     or "getSortedKeys()" in norm(s) for s in n.body)
-            ctx.check("C04.order", nf, n.test, ok, "for over a map does not enumerate keys in sorted order",
-                      site="NodeFor.evaluate: map -> sorted keys")
-        if isinstance(n, ast.If) and norm(n.test) == "lst.isList()":
-            ok = any(norm(s) == "values = lst.value" for s in n.body)
-            ctx.check("C04.order", nf, n.test, ok, "for over a list does not visit the elements in order",
-                      site="NodeFor.evaluate: list -> payload order")
+    from ..partial import prune
+    kinds = sorted({x.func.attr for x in ast.walk(nf.node) if isinstance(x, ast.Call)
+                    and isinstance(x.func, ast.Attribute) and norm(x.func.value) == "lst"
+                    and x.func.attr.startswith("is") and not x.args})
+    for kind, want in (("isList", "payload"), ("isSet", "sorted"), ("isMap", "sorted")):
+        if kind not in kinds:
+            ctx.broken("NodeFor.evaluate", f"no `lst.{kind}()` test found")
+        known_ = {f"lst.{k}()": k == kind for k in kinds}
+        body, _ = prune(nf.node.body, known_)
+        # the host loop(s) that run the block for this kind, and where their sequence comes from
+        last_assign = {}
+        found = []
+
+        def scan(stmts):
+            for st_ in stmts:
+                if isinstance(st_, ast.Assign) and len(st_.targets) == 1 and isinstance(st_.targets[0], ast.Name):
+                    last_assign[st_.targets[0].id] = st_.value
+                if isinstance(st_, ast.For) and any(
+                        isinstance(x, ast.Call) and norm(x.func) == "self.block.evaluate" for x in ast.walk(st_)):
+                    src = st_.iter
+                    hops = 0
+                    while isinstance(src, ast.Name) and src.id in last_assign and hops < 5:
+                        src = last_assign[src.id]
+                        hops += 1
+                    found.append((st_, src))
+                elif isinstance(st_, (ast.If, ast.For, ast.While, ast.With, ast.Try)):
+                    scan(st_.body)
+                    scan(getattr(st_, "orelse", []) or [])
+        scan(body)
+        if not found:
+            ctx.broken("NodeFor.evaluate", f"no block-running loop found for {kind}")
+        for loop, src in found:
+            t = norm(src)
+            is_sorted = any(k in t for k in ("sorted(", "getSortedItems()", "getSortedKeys()"))
+            if want == "payload":
+                ok = t == "lst.value"
+                msg = "for over a list does not visit the elements in order"
+            else:
+                ok = is_sorted
+                msg = f"for over a {'set' if kind == 'isSet' else 'map'} does not enumerate the sorted view " \
+                      f"(it iterates {t[:60]})"
+            ctx.check("C04.order", nf, loop.iter, ok, msg, expr=f"{kind} iteration source",
+                      site=f"NodeFor.evaluate: {kind[2:].lower()} -> {'payload order' if want == 'payload' else 'sorted view'}")
 
     # ---------------------------------------------------------------- paired comprehensions
     nodes = model.module(P, "nodes")
